@@ -524,6 +524,57 @@ Proof.
   apply (G ops init). split; cbn [init circuits map]; constructor.
 Qed.
 
+(* ---- queued packets keep the classification they got when they were submitted ---- *)
+Lemma enqueue_in q x e : In e (fst (enqueue q x)) -> In e q \/ e = x.
+Proof.
+  unfold enqueue. destruct (Z.of_nat (length q) <? SEND_QUEUE_MAXLEN).
+  - cbn [fst]. intros H. apply in_app_or in H as [H|[H|[]]]; [left; exact H|right; symmetry; exact H].
+  - destruct q as [|[ea ep] tl]; cbn [fst]; intros H; apply in_app_or in H as [H|[H|[]]].
+    + contradiction.
+    + right. symmetry. exact H.
+    + left. right. exact H.
+    + right. symmetry. exact H.
+Qed.
+
+(* whatever is in the queue after a step was there before, or is the packet of this very send, submitted
+   while its prefix was switched on *)
+Lemma step_queue_origin s o e : In e (queue (fst (step s o))) ->
+  In e (queue s) \/ (exists nh, o = Send (fst e) (snd e) nh /\ anon_on s (snd e) = true).
+Proof.
+  destruct (is_send o) eqn:E.
+  2:{ destruct (step_nonsend_silent s o E) as [_ Hq]. rewrite Hq. intros H. left. exact H. }
+  apply is_send_true in E as [a [p [nh E]]]. subst o. cbn [step]. unfold send.
+  destruct (anon_on s p) eqn:Hon; cbn [negb]; [|intros H; left; exact H].
+  destruct (negb (attached s)); [intros H; left; exact H|].
+  destruct (filter (matches (hops_cfg s)) (circuits s)) as [|c tl].
+  - set (s1 := match nh with Some h => add_circuit s (hops_cfg s) CTYPE_DATA h | None => s end).
+    assert (Hq : queue s1 = queue s) by (destruct nh; reflexivity).
+    pose proof (enqueue_in (queue s1) (a, p) e) as Hk. rewrite Hq in *.
+    destruct (enqueue (queue s) (a, p)) as [q o]. cbn [fst queue set_queue] in *.
+    intros H. destruct (Hk H) as [H1|H1]; [left; exact H1|].
+    right. subst e. exists nh. split; [reflexivity|exact Hon].
+  - destruct (is_ready c).
+    + cbn [fst queue set_queue]. intros [].
+    + pose proof (enqueue_in (queue s) (a, p) e) as Hk.
+      destruct (enqueue (queue s) (a, p)) as [q o]. cbn [fst queue set_queue] in *.
+      intros H. destruct (Hk H) as [H1|H1]; [left; exact H1|].
+      right. subst e. exists nh. split; [reflexivity|exact Hon].
+Qed.
+
+(* the step that takes packets out of the queue (a send with its own prefix on) hands nothing at all to the raw
+   socket, whatever the switches of the waiting packets' prefixes are by then *)
+Lemma flush_never_raw_l s a p nh : anon_on s p = true -> forall b q, ~ In (Raw b q) (snd (step s (Send a p nh))).
+Proof. intros Hon. cbn [step]. exact (fate_no_raw _ _ _ _ _ (send_anon_fate s a p nh Hon)). Qed.
+
+(* a waiting packet and the raw socket: bytes equal to a waiting packet reach the raw socket only through a new,
+   separate submission of those bytes at a moment their prefix is off - which leaves the queue untouched *)
+Lemma queued_never_raw_l s o e : In e (queue s) -> In (Raw (fst e) (snd e)) (snd (step s o)) ->
+  (exists nh, o = Send (fst e) (snd e) nh) /\ anon_on s (snd e) = false /\ fst (step s o) = s.
+Proof.
+  intros _ Hr. destruct (step_raw s o _ _ Hr) as [Hoff [nh Ho]]. subst o.
+  split; [exists nh; reflexivity|]. split; [exact Hoff|]. cbn [step]. rewrite send_plain by exact Hoff. reflexivity.
+Qed.
+
 Lemma queue_bounded_both_l ops :
   Z.of_nat (length (queue (final init ops))) <= SEND_QUEUE_MAXLEN
   /\ Forall (fun e => Z.of_nat (length (queue (ev_pre e))) <= SEND_QUEUE_MAXLEN) (trace init ops).
